@@ -65,9 +65,15 @@ def make_calls(rng, C, cv, gd, st, sv, tr):
         elif k == 5:
             calls.append(('vincdir', gd.vincdir, lambda lat=lat, lon=lon, e=e: (lat, lon, 123.4, 54321.0, e)))
         elif k == 6:
-            calls.append(('vcv_cart2local', st.vcv_cart2local, lambda V=V, lat=lat, lon=lon: (V.copy(), lat, lon)))
+            if rng.random() < 0.3:
+                calls.append(('vcv_local2cart[null]', st.vcv_local2cart, lambda lat=lat, lon=lon: (np.zeros((3, 3)), lat, lon)))
+            else:
+                calls.append(('vcv_cart2local', st.vcv_cart2local, lambda V=V, lat=lat, lon=lon: (V.copy(), lat, lon)))
         elif k == 7:
-            calls.append(('relative_error', st.relative_error, lambda V=V, lat=lat, lon=lon: (lat, lon, V.copy(), V.copy() * 2, V.copy() * 0.1)))
+            if rng.random() < 0.4:          # a constrained station: null covariance for station 1 and null cross-covariance
+                calls.append(('relative_error[null var1]', st.relative_error, lambda V=V, lat=lat, lon=lon: (lat, lon, np.zeros((3, 3)), V.copy() * 2, np.zeros((3, 3)))))
+            else:
+                calls.append(('relative_error', st.relative_error, lambda V=V, lat=lat, lon=lon: (lat, lon, V.copy(), V.copy() * 2, V.copy() * 0.1)))
         elif k == 8:
             t = rng.choice(sd7)
             calls.append(('conform7+vcv', tr.conform7, lambda X=X, t=t, V=V: (X[0], X[1], X[2], t, V.copy())))
